@@ -58,6 +58,28 @@ def run(ctx, rep):
     r2(ctx, rep)
     r3(ctx, rep)
     r4(ctx, rep)
+    r6(ctx, rep)
+
+
+def r6(ctx, rep):
+    """Compositionality end to end: R1 folds `value_of` with `is_sentence_opaque` given as a constant; here the whole chain is
+    read from the logic's model MRO (sa.modelfold, shared with C07.R5): the value of a compound is the table applied to the
+    values of its operands -- atoms, identical atoms, nested compounds and uninterpreted operands alike."""
+    from .. import modelfold
+    m = ctx.m
+    R6 = rep.rule('C08.R6', 'Model.value_of of every logic folded end to end through its MRO (is_sentence_opaque included): a compound sentence evaluates '
+                            'to the truth function applied to the values of its operands at the evaluated world, also when an operand is uninterpreted '
+                            '(imported from C07.R5)')
+    n = 0
+    for lg in ctx.lgs:
+        res, cons = modelfold.fold_value_of(m, ctx.lgs, lg, deep=rep.tier == 'thorough')
+        rep.consult(*cons)
+        for ok, case, detail in res:
+            n += 1
+            rep.instance(R6, ok=ok, nontrivial=(lg.name, case))
+            if not ok:
+                rep.finding(R6, f'C08.R6/{lg.name}/{case}', m.relfile(lg.modelcls.module), f'{lg.name}.Model.value_of', f'{case}: {detail}')
+    rep.floor('C08.R6', 'evaluation cases', n, 5000)
 
 
 def r1(ctx, rep):
